@@ -472,3 +472,12 @@ func (c *Cond) signal(all bool) {
 	}
 	rt.WakeAll(&c.waiters)
 }
+
+// Go calls f in a new (simulated) goroutine and adds it to the WaitGroup.
+func (wg *WaitGroup) Go(f func()) {
+	wg.Add(1)
+	rt.Go(func() {
+		defer wg.Done()
+		f()
+	})
+}
